@@ -189,6 +189,7 @@ class DSession:
         foreign: the request is made with a look-alike Operation that was never attached to the instance (same machines
         and duration as jobs[j][p]); it is "not the next operation of its job" and is logged with position 0."""
         op = self._op(j, p)
+        p_like = p
         if foreign:
             from job_shop_lib import Operation
             op = Operation(list(op.machines) if len(op.machines) > 1 else op.machines[0], op.duration)
@@ -197,7 +198,10 @@ class DSession:
             out, _ = _outcome(lambda: self.dispatcher.dispatch(op))
         else:
             out, _ = _outcome(lambda: self.dispatcher.dispatch(op, m - 1))
-        self._ev({"a": "Dispatch", "j": j, "p": p, "m": m, "none": bool(none), "out": out})
+        ev = {"a": "Dispatch", "j": j, "p": p, "m": m, "none": bool(none), "out": out}
+        if foreign:
+            ev["foreign_like"] = p_like      # (for re-execution: the position the look-alike was modelled on)
+        self._ev(ev)
         return out
 
     def reset(self):
@@ -577,8 +581,12 @@ def rerun_trace(tid, trace) -> dict:
         a = ev["a"]
         if a == "Init":
             continue
-        if a == "Dispatch":
+        if a == "Dispatch" and "foreign_like" in ev:
+            s.dispatch(ev["j"], ev["foreign_like"], ev["m"], foreign=True)
+        elif a == "Dispatch":
             s.dispatch(ev["j"], ev["p"], ev["m"], none=bool(ev.get("none", False)))
+        elif a == "UnsubBuiltin":
+            s.unsubscribe_builtin(ev["target"] - 1)
         elif a == "Reset":
             s.reset()
         elif a == "Query":
